@@ -4,7 +4,7 @@ A = "github.com/agglayer/aggkit/aggsender."
 OBLIGATIONS = []
 
 
-def _add(k, nblk, mask, retry, grow, faults, tiers, prefix=0, reach=("end", "second height")):
+def _add(k, nblk, mask, retry, grow, faults, tiers, prefix=0, reach=("end", "second height"), cmask=0, maxsize=0):
     pre = []
     p = prefix
     while p:
@@ -14,8 +14,9 @@ def _add(k, nblk, mask, retry, grow, faults, tiers, prefix=0, reach=("end", "sec
         name="C02 send loop, %d events%s, L2 of %d block(s) (bridges in blocks %s), %s, retry %s%s" % (
             k, (" (first: " + ", ".join(pre) + ")") if pre else "", nblk, [i + 1 for i in range(nblk) if mask >> i & 1],
             "one more block visible at every poll" if grow else "all blocks visible from the start",
-            "immediately after an error" if retry else "at the next epoch", ", Agglayer calls may fail" if faults else ""),
-        harness=A + "ZZVerif_C02_Loop", params={"K": k, "NBLK": nblk, "MASK": mask, "RETRY": retry, "GROW": grow, "FAULTS": faults, "PREFIX": prefix},
+            "immediately after an error" if retry else "at the next epoch", ", Agglayer calls may fail" if faults else "")
+        + (", claims in blocks %s" % [i + 1 for i in range(nblk) if cmask >> i & 1] if cmask else "") + (", certificate size limit %d bytes" % maxsize if maxsize else ""),
+        harness=A + "ZZVerif_C02_Loop", params={"K": k, "NBLK": nblk, "MASK": mask, "RETRY": retry, "GROW": grow, "FAULTS": faults, "PREFIX": prefix, "CMASK": cmask, "MAXSIZE": maxsize},
         tiers=tiers, reach=list(reach), time_limit_s=5000, max_paths=400000,
         bounds="every order of %d events (epoch / status tick); at every poll of an open certificate the Agglayer leaves it open, settles it or rejects it; "
                "all ids, exit roots, network id, creation times symbolic" % k))
@@ -27,6 +28,10 @@ for retry in (0, 1):
         _add(3, 3, 0b111, retry, grow, 0, Q)
 _add(3, 3, 0b101, 1, 1, 0, Q)
 _add(3, 2, 0b11, 1, 1, 1, Q, reach=("end",))
+_add(3, 3, 0b110, 1, 0, 0, Q, cmask=0b011, maxsize=3100)   # size limit cuts the first range after a claim-only first block
+_add(3, 3, 0b101, 0, 1, 0, Q, cmask=0b110)
+_add(4, 4, 0b1010, 1, 0, 0, T, prefix=1, cmask=0b0111, maxsize=3100)
+_add(4, 4, 0b1010, 1, 0, 0, T, prefix=2, cmask=0b0111, maxsize=3100)
 for pfx in (1, 2):
     _add(4, 3, 0b111, 1, 1, 0, Q, prefix=pfx)
     _add(4, 3, 0b111, 0, 0, 0, T, prefix=pfx)
@@ -53,8 +58,8 @@ ASSUMPTIONS = [
     "the loop's status ticker is created through the harness (source rewrite of the one time.NewTicker call in aggsender.go, re-applied to the current file at every run): ticks are schedule events",
     "events are fed one at a time, at the start of each loop iteration, through a wrapper of the real status checker",
     "model Agglayer: accepts every submission and judges it; decides the open certificate at arbitrary polls; a failing call has no effect on the Agglayer's state",
-    "L2 syncer fake answering as C01/C04 establish (events of a range in order, exit root per deposit count); bridges only (claims: C09)",
+    "L2 syncer fake answering as C01/C04 establish (events of a range in order, exit root per deposit count); claims carry no real proofs (C09)",
     "signer, rate limiter and epoch status are stubs; encoding/json.Marshal returns arbitrary bytes (the stored JSON copy is not interpreted)",
 ]
 OUTSIDE = ("more than 5 loop events; random walks beyond the depth bound (not solver-based); a submission that reaches the Agglayer although the call reports failure; "
-           "claims in certificates; the aggchain-prover flow; the start-up check before the loop (C13)")
+           "claim proofs (C09); the aggchain-prover flow; the start-up check before the loop (C13)")
